@@ -512,3 +512,136 @@ def unit_subs_doit_simplify(timeout_ms=10000):
                    z3.BoolVal(len(lin) == 1 and isinstance(s_, T) and s_.head == "applyfunc" and s_.args[0] is lin[0] and s_.args[1] is SIMPLIFY and len(s_.args) == 3 and s_.args[2].args[1] == 2))
     return run_unit("number_ordered_form:_eval_subs/doit/_eval_simplify", harness,
                     functions=[(MODULE, "NumberOrderedForm._eval_subs"), (MODULE, "NumberOrderedForm.doit"), (MODULE, "NumberOrderedForm._eval_simplify")], timeout_ms=timeout_ms)
+
+
+def unit_poly_simplify(timeout_ms=10000):
+    """NumberOrderedForm._poly_simplify (used on the second-quantized solver's result, C07 / C08): a form on the SAME operators and power tuples, built without
+    re-validation; a coefficient is either kept as it is (constant; sympy finds no generators; every generator is a number-operator placeholder) or it is
+    Poly.from_dict({m: g(c_m)}, gens=G, domain=EXRAW).as_expr() where {m: c_m} = poly(coeff, gens=G, domain=EXRAW).as_dict() - decomposition and reconstruction over the SAME
+    generators G (= the non-placeholder generators sympy found, in sympy's order) and the same domain, the same monomials, g(c) = collect_const(simplify(c)).doit().  With the
+    assumed sympy contracts (A-SY2: as_dict / from_dict are inverse for equal gens and domain; simplify, collect_const, doit preserve the value) this is value preservation.
+    A form without operators is returned itself."""
+    node = frontend.find(MODULE, "NumberOrderedForm._poly_simplify")
+
+    def harness(eng):
+        class Ident(T):
+            def m_binop(s, e, op, other, reflected):
+                if isinstance(op, ast.Eq):
+                    return other is s
+                return super().m_binop(e, op, other, reflected)
+        N0, N1, X, Y = Ident("n0"), Ident("n1"), Ident("x"), Ident("y")
+        EXRAW = Ident("EXRAW")
+        DEFAULT_GENS = {"c2": [N1, N0], "c3": [N0, X, N1, Y]}
+        MONOS = [STup([1, 0]), STup([0, 2]), STup([0, 0])]
+
+        class Coef(Ident):
+            def m_getattr(s, e, name):
+                if name == "free_symbols":
+                    return STup([], None, True) if s.head == "c0" else STup([N0], None, True)
+                if name == "doit":
+                    return Builtin("doit", lambda e_, **h: Coef("doit", s))
+                return super().m_getattr(e, name)
+        c = [Coef("c0"), Coef("c1"), Coef("c2"), Coef("c3")]
+        pws = [STup([1, 0]), STup([0, -1]), STup([0, 0]), STup([2, 1])]
+        polys, rebuilt = [], []
+
+        class PolyObj(Model):
+            def __init__(s, coeff, gens, domain):
+                s.coeff, s.gens, s.domain = coeff, gens, domain
+                s.parts = [Coef(f"part{i}", coeff) for i in range(len(MONOS))]
+
+            def m_getattr(s, e, name):
+                if name == "gens":
+                    return STup(list(s.gens))
+                if name == "as_dict":
+                    items = STup([STup([m, p]) for m, p in zip(MONOS, s.parts)])
+                    d = Namespace("dict", {"items": Builtin("items", lambda e_: items)})
+                    return Builtin("as_dict", lambda e_: d)
+                raise Unsupported(f"poly.{name}")
+
+        def poly(e, coeff, gens=None, domain=None):
+            if gens is None:
+                if coeff.head == "c1":
+                    raise PyRaise(SExc("GeneratorsNeeded"))
+                g = DEFAULT_GENS[coeff.head]
+            else:
+                g = list(e.as_seq(gens).items)
+            p = PolyObj(coeff, g, domain)
+            polys.append(p)
+            return p
+
+        def from_dict(e, d, gens=None, domain=None):
+            r = {"dict": d, "gens": gens, "domain": domain, "poly": polys[-1] if polys else None}
+            rebuilt.append(r)
+            out = Coef("rebuilt")
+            r["expr"] = out
+            return Namespace("Poly", {"as_expr": Builtin("as_expr", lambda e_: out)})
+
+        class Placeholders(Model):
+            def m_contains(s, e, item):
+                return item is N0 or item is N1
+
+        def make_self(ops):
+            class Self(Model):
+                def m_getattr(s, e, name):
+                    if name == "args":
+                        return STup([ops, STup([STup([p, x]) for p, x in zip(pws, c)])])
+                    if name == "operators":
+                        return ops
+                    if name == "_number_operator_placeholders":
+                        return Placeholders()
+                    raise Unsupported(f"self.{name}")
+            return Self()
+        built = []
+
+        def cls_call(e, o, t, validate=True):
+            built.append((o, t, validate))
+            return T("new-form")
+        GN = TypeObj("GeneratorsNeeded")
+        sym = Namespace("sympy", {
+            "poly": Builtin("poly", poly), "EXRAW": EXRAW,
+            "Poly": Namespace("Poly", {"from_dict": Builtin("from_dict", from_dict)}),
+            "simplify": Builtin("simplify", lambda e, x: Coef("simplify", x)),
+            "collect_const": Builtin("collect_const", lambda e, x: Coef("collect_const", x)),
+            "polys": Namespace("polys", {"polyerrors": Namespace("polyerrors", {"GeneratorsNeeded": GN})})})
+        eng.globals.update({"sympy": sym, "type": Builtin("type", lambda e, x: Builtin("cls", cls_call))})
+
+        # a form without operators is returned itself
+        empty = make_self(STup([], None, True))
+        r0 = eng.call(Closure(node, Env(None, {}), "_poly_simplify"), [empty], {})
+        eng.oblige("no-operators:self-returned-unchanged", z3.BoolVal(r0 is empty and not built and not polys))
+        built.clear(); polys.clear(); rebuilt.clear()
+
+        OPS = STup([Ident("op0"), Ident("op1")], None, True)
+        me = make_self(OPS)
+        res = eng.call(Closure(node, Env(None, {}), "_poly_simplify"), [me], {})
+        ok = len(built) == 1 and isinstance(res, T) and res.head == "new-form" and built[0][0] is OPS and built[0][2] is False and isinstance(built[0][1], dict)
+        eng.oblige("one-form-on-the-same-operators-built-without-revalidation", z3.BoolVal(bool(ok)))
+        if not ok:
+            return
+        d = built[0][1]
+        want_keys = [(1, 0), (0, -1), (0, 0), (2, 1)]
+        eng.oblige("same-power-tuples", z3.BoolVal(sorted(d) == sorted(want_keys)), detail=repr(sorted(d)))
+        for k_, x, why in zip(want_keys[:3], c[:3], ("constant", "no-generators", "only-number-generators")):
+            eng.oblige(f"{why}-coefficient-kept-as-it-is", z3.BoolVal(d.get(k_) is x), detail=repr(d.get(k_)))
+        eng.oblige("exactly-one-coefficient-rebuilt", z3.BoolVal(len(rebuilt) == 1), detail=str(len(rebuilt)))
+        if len(rebuilt) != 1:
+            return
+        r = rebuilt[0]
+        eng.oblige("mixed-coefficient-is-the-rebuilt-polynomial", z3.BoolVal(d.get((2, 1)) is r["expr"]), detail=repr(d.get((2, 1))))
+        p = r["poly"]
+        gens_r = list(eng.as_seq(r["gens"]).items) if r["gens"] is not None else None
+        eng.oblige("decomposed-the-same-coefficient-over-the-non-number-generators-in-sympy-order",
+                   z3.BoolVal(p is not None and p.coeff is c[3] and len(p.gens) == 2 and p.gens[0] is X and p.gens[1] is Y), detail=repr(p and p.gens))
+        eng.oblige("rebuilt-over-the-same-generators-as-decomposed",
+                   z3.BoolVal(p is not None and gens_r is not None and len(gens_r) == len(p.gens) and all(a is b for a, b in zip(gens_r, p.gens))), detail=repr(gens_r))
+        eng.oblige("both-in-the-EXRAW-domain(no expansion of (n+1)**k)", z3.BoolVal(p is not None and p.domain is EXRAW and r["domain"] is EXRAW))
+        dd = r["dict"]
+        keys_ok = isinstance(dd, dict) and sorted(dd) == sorted([(1, 0), (0, 2), (0, 0)])
+        eng.oblige("same-monomials", z3.BoolVal(bool(keys_ok)), detail=repr(dd))
+        if keys_ok and p is not None:
+            for m, part in zip([(1, 0), (0, 2), (0, 0)], p.parts):
+                v = dd[m]
+                good = isinstance(v, T) and v.head == "doit" and v.args[0].head == "collect_const" and v.args[0].args[0].head == "simplify" and v.args[0].args[0].args[0] is part
+                eng.oblige(f"monomial-{m}-coefficient-is-collect_const(simplify(its own coefficient)).doit()", z3.BoolVal(bool(good)), detail=repr(v))
+    return run_unit("number_ordered_form:_poly_simplify", harness, functions=[(MODULE, "NumberOrderedForm._poly_simplify")], timeout_ms=timeout_ms)
